@@ -129,6 +129,12 @@ func runC02RealChain(c *core.Ctx) {
 			for k := 0; k < 1+t.Draw(3); k++ {
 				fh := &wire.BlockHeader{Version: 0x20000000, PrevBlock: model.HeaderHash(prev), Timestamp: prev.Timestamp + uint32(1+t.Draw(4000)), Bits: 0x1500ffff, Nonce: uint32(k)}
 				if err := repo.ProcessHeader(ctx, fh); err != nil {
+					if hw.Verdict(err) == "wrong-chain" {
+						// the fork reached the chain split height, where only the BSV header is accepted
+						// (C03): the competing branch ends here
+						c.Probe("competing-branch-stopped-at-split-height")
+						break
+					}
 					c.Fail("c02.setup", "competing-branch", "could not add the competing branch: %v", err)
 				}
 				prev = fh
